@@ -385,6 +385,20 @@ func propG(c GCase) error {
 				}
 			}
 		}
+		// the document is that of the coordinates as they are now: x and y of every
+		// coordinate exchanged in place, the same object marshalled again - the bytes are
+		// those of a geometry built anew from the exchanged coordinates
+		if model.SwapXY(model.Leaves(t)) {
+			fresh, err := model.Build(g.SwappedXY(), model.RouteSetCoords)
+			if err != nil {
+				return fmt.Errorf("build of the exchanged geometry: %v", err)
+			}
+			want, err1 := geojson.Marshal(fresh)
+			got, err2 := geojson.Marshal(t)
+			if (err1 == nil) != (err2 == nil) || !bytes.Equal(want, got) {
+				return fmt.Errorf("geojson.Marshal after x and y were exchanged in place: %s, %v; the exchanged coordinates built anew give %s, %v", clip(string(got)), err2, clip(string(want)), err1)
+			}
+		}
 		return nil
 	})
 }
